@@ -285,6 +285,13 @@ STMT_RULES = {
     "measure-int": ("measure ok;", "qubit mq; measure mq;"),
     "reset-int": ("reset ok;", "qubit rq; reset rq;"),
     "multi-declare-int": ("int ma, mb;", "qubit ma, mb;"),
+    # hunt C06/d4: array and object operands of reset / measure
+    "reset-qubit-array": ("qubit[2] rr; reset rr;", "qubit[2] rr; reset rr[0];"),
+    "measure-expression-qubit-array": ("qubit[2] rr; bit mb = measure rr;", "qubit[2] rr; bit mb = measure rr[0];"),
+    "measure-int-array": ("measure arr;", "qubit[2] mr; measure mr;"),
+    "reset-int-array": ("reset arr;", "qubit rq2; reset rq2;"),
+    "reset-object": ("reset po;", "qubit rq3; reset rq3;"),
+    "measure-expression-object": ("bit mo = measure po;", "qubit mq3; bit mo = measure mq3;"),
     "self-reference-in-initialiser": ("int selfr = selfr + 1;", "int selfr = ok + 1;"),
     "self-reference-in-final-initialiser": ("final int selff = selff + 1;", "final int selff = ok + 1;"),
     "self-reference-class-initialiser": ("Priv selfo = selfo;", "Priv selfo = po;"),
